@@ -30,10 +30,12 @@ import (
 	"github.com/multiformats/go-multibase"
 	mh "github.com/multiformats/go-multihash"
 
+	"berty.tech/go-ipfs-log/enc"
 	"berty.tech/go-ipfs-log/entry"
 	"berty.tech/go-ipfs-log/errmsg"
 	idp "berty.tech/go-ipfs-log/identityprovider"
 	"berty.tech/go-ipfs-log/iface"
+	"berty.tech/go-ipfs-log/io/cbor"
 
 	"verifharness/hx"
 	"verifharness/mockstore"
@@ -44,6 +46,7 @@ type signStats struct {
 	Entries, Mutations, BufferOnly        int
 	VerifyOK, VerifyFail, VerifyOKChanged int
 	CreateErrors, Panics                  int
+	KeyedEntries, KeyedMutations          int
 	PayloadClasses                        map[string]int
 	IDClasses                             map[string]int
 	TimeClasses                           map[string]int
@@ -417,6 +420,29 @@ func runSign(seed int64, n int, out *bufio.Writer, thorough bool) *signStats {
 		other, _ := mk(identA, append(cloneBytes(payload), '!'))
 		sameByB, _ := mk(identB, payload)
 
+		// the same content created through the link-encrypting codec (PreSign seals next/refs into two
+		// additional-data values, which are signed too); the created entry still carries them, as every
+		// entry produced in this process does.  Every field mutation below is replayed on a copy of it
+		// and verified with the keyed codec: the verdict must be the one of the plain codec (`TK` line).
+		var ek *entry.Entry
+		var ioK iface.IO
+		if h%2 == 0 {
+			func() {
+				defer func() { recover() }()
+				kb := make([]byte, 32)
+				for i := range kb {
+					kb[i] = byte(r.Intn(256))
+				}
+				lk, _ := enc.NewSecretbox(kb)
+				ioK = io.ApplyOptions(&cbor.Options{LinkKey: lk})
+				data := &entry.Entry{Payload: cloneBytes(e.GetPayload()), LogID: string(logID), Next: next, Refs: refs,
+					Clock: entry.CopyLamportClock(e.GetClock()), AdditionalData: add}
+				if x, err := entry.CreateEntryWithIO(ctx, api, identA, data, &iface.CreateEntryOptions{}, ioK); err == nil {
+					ek = x.(*entry.Entry)
+					st.KeyedEntries++
+				}
+			}()
+		}
 		// keyF / sigF: 0 untouched, 1 replaced by a value foreign to these bytes / this key,
 		// 2 replaced by the other writer's key / signature over the same content
 		emit := func(kind string, m iface.IPFSLogEntry, keyF, sigF int) {
@@ -434,6 +460,27 @@ func runSign(seed int64, n int, out *bufio.Writer, thorough bool) *signStats {
 				st.Panics++
 			default:
 				st.VerifyFail++
+			}
+			if ek != nil && keyF == 0 && sigF == 0 {
+				mk := ek.Copy().(*entry.Entry)
+				mk.SetPayload(m.GetPayload())
+				mk.SetLogID(m.GetLogID())
+				mk.SetNext(m.GetNext())
+				mk.SetRefs(m.GetRefs())
+				mk.SetV(m.GetV())
+				mk.SetClock(m.GetClock())
+				ad := map[string]string{}
+				for k, v := range m.GetAdditionalData() {
+					ad[k] = v
+				}
+				for _, k := range []string{iface.KeyEncryptedLinks, iface.KeyEncryptedLinksNonce} {
+					if v, ok := ek.AdditionalData[k]; ok {
+						ad[k] = v
+					}
+				}
+				mk.AdditionalData = ad
+				fmt.Fprintf(out, "TK %s %s %s\n", al, kind, safeVerify(mk, identA.Provider, ioK))
+				st.KeyedMutations++
 			}
 		}
 		// signed bytes only (no signature involved): many more field combinations through the real
